@@ -24,6 +24,10 @@ def make(e, tag, name, length=2, month=None):
         return None
     if tag == 'text':
         return e.fresh_str(name, length) if length else ''
+    if tag == 'earlydate':
+        # the 59 days before the 1900 date system's phantom leap day: serial = days since 1899-12-31, except 1900-01-01 which
+        # this library uses for Excel's 1900/1/0 (serial 0; pinned by the repository's tests and accepted by C13's statement)
+        return dates.fresh_datetime_ord(e, name, ORD_1900_03_01 - 59, ORD_1900_03_01 - 1, with_time=False)
     if tag in ('date', 'datetime'):
         if month is None:
             return dates.fresh_datetime_ord(e, name, ORD_1900_03_01, None, with_time=(tag == 'datetime'))
@@ -50,9 +54,12 @@ def is_number(v):
 
 
 def serial_real(t):
-    """Excel 1900 serial of a date-time on/after 1900-03-01, exact rational (z3 Real)"""
+    """Excel 1900 serial of a date-time on/after 1900-01-01, exact rational (z3 Real): one more from 1900-03-01 on (the
+    phantom 29 February 1900 of the 1900 date system)"""
     t = as_sym_dt(t)
-    return z3.ToReal(t.ord - ORD_1899_12_30) + z3.ToReal(t.us) / US_DAY
+    base = z3.If(t.ord >= ORD_1900_03_01, t.ord - ORD_1899_12_30,
+                 z3.If(t.ord == ORD_1900_03_01 - 59, 0, t.ord - ORD_1899_12_30 - 1))      # 1900-01-01: serial 0 ("1900/1/0")
+    return z3.ToReal(z3.simplify(base)) + z3.ToReal(t.us) / US_DAY
 
 
 def num_real(v):
